@@ -42,6 +42,18 @@ func runC02(c *Ctx) {
 	r.Doc("X8", "(= C07 E1-E3) the scheduler ends normally only after all inputs were observed drained; drained is set only on the closed edge; the all-drained helper visits every input", 10)
 	r.Doc("X9", "v1 Simple: the supervising goroutine waits only for stop, cancel, the graceful request and the inner discipline's end (its return stops everything)", 7)
 	checkSupervisorWaits(c, c.V1, "X9")
+	// X10 (= R1): v1 AddInput/RemoveInput hand the command to the scheduler synchronously. Queued
+	// commands are applied late and out of order between the two queues: an input added before a
+	// graceful stop is dropped, a channel ends up registered under the key it was removed from
+	r.Doc("X10", "(= R1) v1 command channels are unbuffered: a registration is in effect, in call order, when the call returns", 2)
+	if d := c.V1.Disc("priority.Discipline"); d != nil && len(d.Ctors) > 0 {
+		for _, f := range []string{"inputAdds", "inputRmvs"} {
+			capc := c.V1.chanCapacityConst(d, f)
+			r.Check(capc == 0, "X10", "v1:priority.Discipline#"+f, c.V1.Pos(d.Ctors[0].Pos()), "make(chan, 0)", fmt.Sprintf("command channel %s is made with capacity %d: AddInput/RemoveInput return before the scheduler has seen the command; commands are applied late and the two queues are drained in no particular order, so items of an input added before termination are lost or delivered under a removed key", f, capc))
+		}
+	} else {
+		r.Fail("X10", "v1:priority.Discipline", "-", "UNRESOLVED-ANCHOR: v1 priority discipline not found")
+	}
 	for _, p := range []*Prog{c.V1, c.V2} {
 		sr, err := resolveSchedRoles(p)
 		if err != nil {
